@@ -72,7 +72,8 @@ where
         let mut any_vec_ptr = self.iter.any_vec_ptr;
 
         let elements_left = self.original_len - self.end;
-        let replace_end = self.start + self.replace_with.len();
+        let replace_len = self.replace_with.len();
+        let replace_end = self.start + replace_len;
         let new_len = replace_end + elements_left;
 
         // 0. capacity.
@@ -106,19 +107,35 @@ where
             let type_id = element_typeid(any_vec_ptr);
             let element_size = element_size(any_vec_ptr);
             let mut ptr = element_mut_ptr_at(any_vec_ptr, self.start);
-            while let Some(replace_element) = self.replace_with.next() {
+            // ExactSizeIterator::len() is not trusted for memory safety:
+            // take at most the `replace_len` items room was made for.
+            let mut written = 0;
+            while written < replace_len {
+                let replace_element = match self.replace_with.next(){
+                    Some(element) => element,
+                    None => break
+                };
                 assert_types_equal(type_id, replace_element.value_typeid());
                 replace_element.move_into::<
                     <ReplaceIter::Item as AnyValueSizeless>::Type
                 >(ptr, element_size);
                 ptr = ptr.add(element_size);
+                written += 1;
             }
-        }
 
-        // 4. restore len
-        {
-            let any_vec_raw = unsafe{any_vec_ptr.any_vec_raw_mut()};
-            any_vec_raw.len = new_len;
+            // Fewer items than promised - close the gap.
+            if written < replace_len {
+                move_elements_at(
+                    any_vec_ptr,
+                    replace_end,
+                    self.start + written,
+                    elements_left
+                );
+            }
+
+            // 4. restore len
+            let any_vec_raw = any_vec_ptr.any_vec_raw_mut();
+            any_vec_raw.len = self.start + written + elements_left;
         }
     }
 }
